@@ -144,7 +144,7 @@ type histEnv struct {
 
 func (e *histEnv) digestArgs() string {
 	var sb strings.Builder
-	for _, k := range []string{"leaf", "or", "notand", "fn", "andnull", "nested", "colIF", "colFI", "orbool", "orbool2"} {
+	for _, k := range []string{"leaf", "or", "notand", "fn", "andnull", "nested", "colIF", "colFI", "orbool", "orbool2", "allnull"} {
 		sb.WriteString(e.clauses[k].String())
 		sb.WriteByte(';')
 	}
@@ -177,6 +177,7 @@ func newHistEnv() *histEnv {
 		"fn":     qframe.Filter{Column: "s", Comparator: nonempty},
 		// sub-clauses that hand their receiver through unchanged before a filtering leaf
 		"andnull": qframe.And(qframe.Null(), qframe.Filter{Column: "i", Comparator: ">", Arg: 1}),
+		"allnull": qframe.And(qframe.Null(), qframe.Or(qframe.Null())),
 		"nested":  qframe.And(qframe.Or(qframe.Null()), qframe.And(qframe.Null(), qframe.Filter{Column: "k", Comparator: "=", Arg: 1}), qframe.Filter{Column: "i", Comparator: "<", Arg: 3}),
 		// column-to-column comparisons across int and float (one side is promoted for the comparison)
 		// an Or whose first member is a plain test of the bool column (and the same members the other way round)
@@ -344,6 +345,14 @@ func c01Ops() []histOp {
 		frameOp("FilteredApply(i>1,const->i)", func(e *histEnv, q qframe.QFrame) qframe.QFrame {
 			return q.FilteredApply(e.clauses["leaf"], e.instr["fconst"]...)
 		}),
+		// clauses that keep every row (the result of filtering with them IS the receiver)
+		frameOp("FilteredApply(Null, fn i->i)", func(e *histEnv, q qframe.QFrame) qframe.QFrame {
+			return q.FilteredApply(qframe.Null(), e.instr["fn1"]...)
+		}),
+		frameOp("FilteredApply(And(Null,Or(Null)), const->i, ToUpper s->s)", func(e *histEnv, q qframe.QFrame) qframe.QFrame {
+			return q.FilteredApply(e.clauses["allnull"], append(append([]qframe.Instruction{}, e.instr["fconst"]...), e.instr["upper"]...)...)
+		}),
+		frameOp("Filter(Null)", func(e *histEnv, q qframe.QFrame) qframe.QFrame { return q.Filter(qframe.Null()) }),
 		frameOp("Eval(ev=i+k)", func(e *histEnv, q qframe.QFrame) qframe.QFrame { return q.Eval("ev", e.exprFlat) }),
 		frameOp("Eval(ev=(i+1)*k)", func(e *histEnv, q qframe.QFrame) qframe.QFrame { return q.Eval("ev", e.exprNest) }),
 		frameOp("Eval(i=abs(i))", func(e *histEnv, q qframe.QFrame) qframe.QFrame { return q.Eval("i", e.exprAbs) }),
